@@ -24,6 +24,12 @@
        <det_re> <det_im> <det_exp> <err_mantissa> <err_exp>          (mantissas hex, exponents decimal)
 
    = Hess.mhess_head_dy k wp (HessModelM.mhess_head over exact Gaussian dyadics, bounds rounded up).
+   A line whose first field is P replays set_coefficient_d calls on the coefficient-store model:
+
+       P <fixed 0|1> <degree> <m> <fill_re> <fill_im> { <i> <m*m entries re im> }*      (i >= 0 decimal)
+
+   output:  <statuses, one digit per call: 0 stored, 1 rejected, 2 memmove out of bounds (replay stops); "-" if
+   no call> <re> <im> ... (the m*m entries of the first block of mP) = Hess.mpoly_run.
    Only conversions between text and the extracted positive/Z live here. *)
 
 open Hess
@@ -114,6 +120,22 @@ let () =
       let toks = List.filter (fun s -> s <> "") (String.split_on_char ' ' (String.trim line)) in
       match toks with
       | [] -> ()
+      | "P" :: fx :: ds :: ms :: fre :: fim :: rest ->
+        let deg = int_of_string ds in
+        let m = int_of_string ms in
+        let per = 1 + 2 * m * m in
+        let rec calls l =
+          if l = [] then [] else begin
+            let rec take k l acc = if k = 0 then (List.rev acc, l) else
+                match l with [] -> failwith "short call" | x :: t -> take (k - 1) t (x :: acc) in
+            let (c, rest) = take per l [] in
+            (nat_of_int (int_of_string (List.hd c)), take_pairs (List.tl c)) :: calls rest
+          end in
+        let (st, blk) = mpoly_run (fx = "1") (nat_of_int deg) (nat_of_int m) (z_of_hex fre, z_of_hex fim) (calls rest) in
+        let rec int_of_nat = function O -> 0 | S k -> 1 + int_of_nat k in
+        let sts = String.concat "" (List.map (fun k -> string_of_int (int_of_nat k)) st) in
+        print_string (String.concat " " ((if sts = "" then "-" else sts) :: List.concat (List.map (fun (a, b) -> [hex_of_z a; hex_of_z b]) blk)));
+        print_newline ()
       | "E" :: ns :: ks :: scs :: wps :: sre :: sim :: rest ->
         let n = int_of_string ns in
         let k = int_of_string ks in
